@@ -94,6 +94,9 @@ def _compile(job):
         out["result"] = None
         out["raised"] = "%s: %s\n%s" % (type(e).__name__, e, traceback.format_exc())
     out["events"] = list(_verif.events) if _verif is not None else None
+    if job.get("slim") and out["events"] is not None:
+        # the caller only looks at the option vector in force (hook H2): the instruction streams of hook H1 stay in the worker
+        out["events"] = [e for e in out["events"] if e["ev"] == "opts_effective"]
     try:
         json.dumps(out["result"])
     except Exception:
